@@ -123,9 +123,11 @@ def gen(tier, rng):
                 pairs += [(a, b) for a in range(lo, hi + 1) for b in (lo, lo + 1, -1, 0, 1, 2, hi - 1, hi) if lo <= b <= hi]
             yield from arith_cases(w, tag, pairs, rng)
     # ---- floats: the four forms agree bit for bit
-    specials32 = [0, 0x80000000, 0x7f800000, 0xff800000, 0x7fc00000, 1, 0x007fffff, 0x3f800000, 0x7f7fffff]
+    specials32 = [0, 0x80000000, 0x7f800000, 0xff800000, 0x7fc00000, 1, 0x007fffff, 0x3f800000, 0x7f7fffff,
+                  0x7fc5e9ab, 0xffc00001, 0x7fa00000]
     specials64 = [0, 1 << 63, 0x7ff0000000000000, 0xfff0000000000000, 0x7ff8000000000000, 1,
-                  0x000fffffffffffff, 0x3ff0000000000000, 0x7fefffffffffffff]
+                  0x000fffffffffffff, 0x3ff0000000000000, 0x7fefffffffffffff,
+                  0x7ff8000000c5e9ab, 0xfff8000000000001, 0x7ff4000000000000]
     for _ in range(1500 if quick else 30000):
         tag = rng.choice([12, 13])
         sp, bits = (specials32, 32) if tag == 12 else (specials64, 64)
